@@ -364,6 +364,9 @@ impl Prop for CliFaithful {
         if w.constant != 0.0 {
             m.add("probe_constant_sum_nonzero", 1);
         }
+        for sp in case.game.shape_probes() {
+            m.add(sp, 1);
+        }
         if case.game.stats().d() > 1e6 {
             m.add("probe_lottery_game_tiny_probability_huge_payoff", 1);
         }
